@@ -407,8 +407,8 @@ func (m *Machine) decideN(n int, tag string) int {
 		if m.pos == len(m.trail) {
 			m.adoptPending()
 		}
-		if d != 0 && (strings.HasPrefix(tag, "sched") || strings.HasPrefix(tag, "switch") || strings.HasPrefix(tag, "select") || strings.HasPrefix(tag, "crash") || strings.HasPrefix(tag, "shuffle") || strings.HasPrefix(tag, "maporder")) {
-			m.nontrivial = true // a schedule / crash / order alternative other than the default
+		if d != 0 {
+			m.nontrivial = true // an input-shape / operation / schedule / crash / order alternative other than the default one
 		}
 		if d >= n {
 			m.unsupported(fmt.Sprintf("trail out of range at %s: %d >= %d", tag, d, n))
